@@ -43,9 +43,21 @@ const (
 // function calls or bare structs. Parsing is more for convenience. Using this
 // approach over modes only adds 10% so a reasonable penalty for
 // maintainability.
+const (
+	// maxFilterDepth is the deepest nesting of filters in filters that is
+	// parsed. Each level is several levels of recursion in the parser.
+	maxFilterDepth = 1000
+	// maxEqDepth is the deepest nesting of a script, counting every
+	// operator chained to the right, every group, and every not. Each is a
+	// level of recursion in the parser and in whatever walks the equation.
+	maxEqDepth = 100000
+)
+
 type parser struct {
-	buf []byte
-	pos int
+	buf     []byte
+	pos     int
+	depth   int // filter nesting depth
+	eqDepth int // equation nesting depth
 }
 
 // ParseString parses a string into an Expr.
@@ -569,7 +581,12 @@ func (p *parser) readFilter() *Filter {
 	if len(p.buf) <= p.pos {
 		p.raise("not terminated")
 	}
+	if maxFilterDepth <= p.depth {
+		p.raise("filters nested too deeply")
+	}
+	p.depth++
 	eq := precedentCorrect(p.readEq())
+	p.depth--
 	eq = reduceGroups(eq, nil)
 	b := p.nextNonSpace()
 	if len(p.buf) <= p.pos || b != ']' {
@@ -597,6 +614,11 @@ func (p *parser) readProc() *Proc {
 // is an operation after that. If so it reads the next equation and decides
 // based on precedent which is contained in the other.
 func (p *parser) readEq() (eq *Equation) {
+	if maxEqDepth <= p.eqDepth {
+		p.raise("script nested too deeply")
+	}
+	p.eqDepth++
+	defer func() { p.eqDepth-- }()
 	eq = p.readEqValue()
 	for p.pos < len(p.buf) {
 		b := p.nextNonSpace()
@@ -622,7 +644,12 @@ func (p *parser) readEqValue() (eq *Equation) {
 		p.pos++
 		// A not binds tighter than any binary operator, it only applies to
 		// the value that follows.
+		if maxEqDepth <= p.eqDepth {
+			p.raise("script nested too deeply")
+		}
+		p.eqDepth++
 		eq = &Equation{o: not, left: p.readEqValue()}
+		p.eqDepth--
 	case '-', '0', '1', '2', '3', '4', '5', '6', '7', '8', '9':
 		p.pos++
 		eq = &Equation{result: p.readNum(b)}
